@@ -781,7 +781,7 @@ def handleSR (payload : String) : String :=
     let doc := CDD.untag ((j.getObjVal? "doc").toOption.getD Json.null)
     if SM.accepts doc then "ACCEPT" else "REFUSE"
 
-/-- f32 bit pattern of a number the simple reader stores in an `f32` field (via f64, as serde does) -/
+/-- f32 bit pattern of a number the simple reader stores in an `f32` field (via f64 — serde's own `f32` visitor rounds an integer literal ONCE: the two differ by one unit in the last place for integers above 2^53, which no generator writes) -/
 def numBitsF32 (n : Option JS.Num) (dflt : Float32) : Nat :=
   match n with
   | none => dflt.toBits.toNat
